@@ -1,8 +1,8 @@
-SPECIFICATION SpecSeq
+SPECIFICATION SpecC
 CONSTANTS
   Chains = {"default", "a"}
   MaxSteps = 0
   Skip <- SkipF1
   NoScan = FALSE
-INVARIANTS Inv_Responds Inv_NoLockLeft
-VIEW ViewSeq
+INVARIANTS Inv_DeadlockIsABBA
+CHECK_DEADLOCK FALSE
